@@ -138,6 +138,11 @@ func checkC05(c *CheckCtx) error {
 	if err := c.runSeq(scs); err != nil {
 		return err
 	}
+	// the pair space of the line-level model through the standalone API: every (stored, received)
+	// body pair x process mode, including the empty value
+	if err := c.replayModel("Gen_Framing_pairs.cfg", 0, 0, "mp", c.pick(800, 0), "ssnap", "snapshot"); err != nil {
+		return err
+	}
 	// beyond the table: random programs in every mode (all APIs, several calls, Clean)
 	g := newFgen(c.Seed*31+5, "m")
 	rs := genCleanScenarios(g, c.pick(40, 600), allAPIs, []string{"ci", "gha", "update", "clean", "other", "default", "ci+update"},
